@@ -115,3 +115,6 @@ func vClockStall(intervalSec int) {}
 
 // vClockWindow: all symbolic readings lie within sec seconds of the first one (engine only).
 func vClockWindow(sec int) {}
+
+// vFSWriteFaults: number of injected write faults so far (engine only).
+func vFSWriteFaults() int { return 0 }
